@@ -870,7 +870,10 @@ def check_executions(ctx, binary, executions, tag, spec_dir, trace_module, trace
                    "driver %s at step %d of execution %d: ops=%s\n%s" % (kind, step, idx, ops[:step][-12:], out[-1800:]))
     r, mism, done = validate_trace(spec_dir, trace_module, trace_cfg, trace, timeout=tlc_timeout)
     ctx.add_tlc("trace:" + tag, r, must_pass=False)
-    if r.violation:
+    # an invariant of the reference violated on a state the trace spec re-synchronised to AFTER a mismatch is a consequence
+    # of that mismatch (the implementation was observed in a state the reference cannot be in): the mismatch is reported,
+    # the rest of that trace chunk stays unexamined.  Without a preceding mismatch it is an error of the specification.
+    if r.violation and not mism:
         ctx.broken.append("trace spec %s: invariant violated / TLC error: %s" % (trace_module, r.violation[:1200]))
     if not done and not r.broken and not r.violation:
         ctx.broken.append("trace validation of %s did not reach the end of the trace" % tag)
